@@ -72,10 +72,15 @@ def run_history(seq):
         rfw.rf_write(rf.make_values(cfg, seed, cfg["start"], 5))  # first files exist, one still open as tmp
         mdw = drf.DigitalMetadataWriter(mdir, MD_SC, MD_FC, N, D, "metadata")
         written = {}
-        next_md = md.first_of_ts(T0, N, D) + 1
+        next_md = md.first_of_ts(T0 + 7, N, D) + 1  # 7 s into a 10 s subdirectory
         readers = []  # (kind, obj, created_at_step)
 
         def query_pass(kind, obj, step, label):
+            # make every metadata file look older than its file cadence (the reader's clean-up of
+            # unreadable files only considers files that are not new)
+            for r_, d_, fs_ in os.walk(mdir):
+                for f_ in fs_:
+                    os.utime(os.path.join(r_, f_), (1000000000, 1000000000))
             before = snapshot(top)
             res = {}
             try:
@@ -92,6 +97,16 @@ def run_history(seq):
                         res["last"] = [int(k) for k in obj.read(hi, hi)]
                         res["latest"] = [int(k) for k in obj.read_latest()]
                         res["latest_val"] = [v.get("v") for v in obj.read_latest().values()]
+                        # a column that no sample has: the reader may raise or return nothing, but it
+                        # must not touch the (by now old) files
+                        try:
+                            obj.read(lo, hi, columns="no_such_field")
+                        except (KeyError, IOError):
+                            pass
+                        try:
+                            obj.read(lo, hi, columns=["v", "no_such_field"])
+                        except (KeyError, IOError):
+                            pass
                 else:
                     res["rf_bounds"] = obj.get_bounds("ch0")
                     b = res["rf_bounds"]
